@@ -120,11 +120,36 @@ type libCase struct {
 	style, eol string
 	finalNL    bool
 	rep        int
-	long       int // index into longVars of an over-long comment line, -1 for none
-	at         int // the long line goes before key line at (at == n: after the last)
+	long       int    // index into longVars of an over-long comment line, -1 for none
+	at         int    // the long line goes before key line at (at == n: after the last)
+	enc        string // "" | bom-utf8 | utf16le-bom | utf16be-bom: a VALID file re-encoded (it is no longer a key file)
 }
 
 var eolModes = []string{"lf", "crlf", "mixed"}
+
+var encodings = []string{"bom-utf8", "utf16le-bom", "utf16be-bom"}
+
+// reencode puts a UTF-8 byte order mark before data or transcodes it (ASCII
+// plus comment noise) to UTF-16 with a byte order mark, always an even length.
+func reencode(data []byte, enc string) []byte {
+	switch enc {
+	case "bom-utf8":
+		return append([]byte{0xEF, 0xBB, 0xBF}, data...)
+	case "utf16le-bom":
+		out := []byte{0xFF, 0xFE}
+		for _, b := range data {
+			out = append(out, b, 0)
+		}
+		return out
+	case "utf16be-bom":
+		out := []byte{0xFE, 0xFF}
+		for _, b := range data {
+			out = append(out, 0, b)
+		}
+		return out
+	}
+	panic("encoding " + enc)
+}
 
 func libPart(r *mon.Run) {
 	var pool []*pkey
@@ -142,7 +167,7 @@ func libPart(r *mon.Run) {
 				for _, eol := range eolModes {
 					for _, fin := range []bool{true, false} {
 						for rep := 0; rep < r.Pick(2, 8); rep++ {
-							cases = append(cases, libCase{fn, n, -1, "", st, eol, fin, rep, -1, 0})
+							cases = append(cases, libCase{fn, n, -1, "", st, eol, fin, rep, -1, 0, ""})
 						}
 					}
 				}
@@ -156,16 +181,29 @@ func libPart(r *mon.Run) {
 							if r.Thorough() {
 								for _, st := range styles {
 									for rep := 0; rep < 4; rep++ {
-										cases = append(cases, libCase{fn, n, pos, kind, st, eol, fin, rep, -1, 0})
+										cases = append(cases, libCase{fn, n, pos, kind, st, eol, fin, rep, -1, 0, ""})
 									}
 								}
 							} else {
 								// three styles per cell, rotating so that every style meets every kind
 								for rep := 0; rep < 3; rep++ {
 									st := styles[(n+pos+ki+ei+fi+2*rep)%len(styles)]
-									cases = append(cases, libCase{fn, n, pos, kind, st, eol, fin, rep, -1, 0})
+									cases = append(cases, libCase{fn, n, pos, kind, st, eol, fin, rep, -1, 0, ""})
 								}
 							}
+						}
+					}
+				}
+			}
+		}
+		// valid files behind a UTF-8 byte order mark or transcoded to UTF-16:
+		// no line of such a file is a key any more; it must be rejected
+		for ei, enc := range encodings {
+			for n := 0; n <= 3; n++ {
+				for si, eol := range eolModes {
+					for fi, fin := range []bool{true, false} {
+						for rep := 0; rep < r.Pick(1, 4); rep++ {
+							cases = append(cases, libCase{fn, n, -1, "", styles[(ei+n+si+fi+rep)%len(styles)], eol, fin, rep, -1, 0, enc})
 						}
 					}
 				}
@@ -181,12 +219,12 @@ func libPart(r *mon.Run) {
 				for at := 0; at <= n; at++ {
 					for rep := 0; rep < r.Pick(1, 3); rep++ {
 						li++
-						cases = append(cases, libCase{fn, n, -1, "", styles[li%len(styles)], eolModes[li%3], li%2 == 0, rep, lv, at})
+						cases = append(cases, libCase{fn, n, -1, "", styles[li%len(styles)], eolModes[li%3], li%2 == 0, rep, lv, at, ""})
 						for pos := 0; pos < n; pos++ {
 							for k := 0; k < r.Pick(2, len(longKinds)); k++ {
 								li++
 								kc++
-								cases = append(cases, libCase{fn, n, pos, longKinds[kc%len(longKinds)], styles[li%len(styles)], eolModes[(li/2)%3], li%2 == 0, rep, lv, at})
+								cases = append(cases, libCase{fn, n, pos, longKinds[kc%len(longKinds)], styles[li%len(styles)], eolModes[(li/2)%3], li%2 == 0, rep, lv, at, ""})
 							}
 						}
 					}
@@ -201,6 +239,9 @@ func libPart(r *mon.Run) {
 		name := fmt.Sprintf("lib/%s/n%d/p%d/%s/%s/%s/%v/%d", c.fn, c.n, c.pos, c.kind, c.style, c.eol, c.finalNL, c.rep)
 		if c.long >= 0 {
 			name += fmt.Sprintf("/%s@%d", longVars[c.long].Name, c.at)
+		}
+		if c.enc != "" {
+			name += "/" + c.enc
 		}
 		viol := func(key, what string, replay any) { col.add(i, key, what, replay) }
 		r.Guard(name, func() { runLib(r, pool, others, i, c, name, viol) })
@@ -251,6 +292,11 @@ func runLib(r *mon.Run, pool, others []*pkey, idx int, c libCase, name string, v
 	}
 	f := assemble(rng, layout, c.style, c.eol, c.finalNL, id)
 	data := f.Bytes()
+	if c.enc != "" {
+		data = reencode(data, c.enc)
+		c.kind = c.enc
+		r.Tab("lib_encoding", c.fn+" "+c.enc)
+	}
 
 	classify := classifyLibRecipient
 	if id {
@@ -260,7 +306,11 @@ func runLib(r *mon.Run, pool, others []*pkey, idx int, c libCase, name string, v
 	if c.pos >= 0 && len(v.BadLines) == 0 {
 		r.Count("lib_corruption_left_line_valid", 1)
 	}
-	if c.pos < 0 && len(v.BadLines) > 0 {
+	if c.enc != "" && len(v.BadLines) == 0 {
+		r.Inconclusive("harness: the model accepts a re-encoded file: %q", data)
+		return
+	}
+	if c.pos < 0 && c.enc == "" && len(v.BadLines) > 0 {
 		r.Inconclusive("harness: model finds an invalid line in a file assembled from valid keys: %q", data)
 		return
 	}
